@@ -121,6 +121,14 @@ class Grammar:
                 idxs = [d.vindex(a) for a in allowed]
                 if len(idxs) == 1:
                     return Adt(head, idxs[0], [])
+                if head in self.policy.get('concrete_enums', ()):
+                    key = 'enum:' + uid
+                    if key in ctx.decisions:
+                        k = ctx.decisions[key]
+                    else:
+                        k = idxs[ctx.choose([True] * len(idxs), 'enum ' + uid)]
+                        ctx.decisions[key] = k
+                    return Adt(head, k, [])
                 v = ctx.var('e!' + uid, z3.IntSort())
                 if v.get_id() not in ctx.dom:
                     ctx.set_domain(v, idxs)
